@@ -257,4 +257,139 @@ example : ∃ s, run St.init ([.update 7 [.holderCommitment] true, .update 8 [.c
     run St.init ([.update 7 [.holderCommitment] true, .update 8 [.counterpartyCommitment] true, .update 9 [] true]
       ++ [.done 7, .done 8, .done 9] ++ [.releaseRaa, .releaseCs]) = some s := ⟨_, rfl, rfl⟩
 
+
+/-! ### the channel-side gate model (`Gate` in Model/MonGate.lean; its decisions are Generated/MonGate.lean, re-translated from
+    channel.rs / channelmanager.rs by tools/gen_mongate.py on every run) -/
+section GateModel
+open Ldk.MonGate.Gate
+
+/-- Held items are never lost, duplicated or reordered — for EVERY op sequence (any mix of commitment_signed / revoke_and_ack /
+    claims / sends, any Completed / InProgress pattern, any completion order and delay, RAA-blocked updates, disconnects and
+    reestablishes) and for each of the four held vectors (update_adds to forward, forwards, failures, finalized fulfills):
+    what has been released so far, followed by what is still held, is exactly what the revoke_and_acks handed over, in order. -/
+theorem held_items_conserved (kind : VK) (k0 : Nat) (ops : List Op) :
+    rel kind (Gate.run (Chan.init k0) ops).2 ++ kind.of (Gate.run (Chan.init k0) ops).1.pend = addedAll kind ops := by
+  have := run_conserves kind ops (Chan.init k0)
+  rw [this]
+  cases kind <;> simp [Chan.init, Gen.Pend.empty, VK.of]
+
+/-- hence once nothing is held any more, exactly the held items have been released, each once, in the order they were held -/
+theorem held_items_released_exactly_once (kind : VK) (k0 : Nat) (ops : List Op)
+    (h : kind.of (Gate.run (Chan.init k0) ops).1.pend = []) :
+    rel kind (Gate.run (Chan.init k0) ops).2 = addedAll kind ops := by
+  have := held_items_conserved kind k0 ops
+  rw [h, List.append_nil] at this
+  exact this
+
+-- two revoke_and_acks while update 6 is in flight (the second one's update 7 too), completions in descending order:
+-- the failures [1,2] and [3] and the forwardable adds come out once, in order, at the completion that empties the in-flight set
+example : rel .fails (Gate.run (Chan.init 5) [.raaRecv false false false [10] [] [1, 2] [] true, .raaRecv false true false [] [] [3] [20] true,
+    .complete 7, .complete 6]).2 = [1, 2, 3] := by decide
+example : (Gate.run (Chan.init 5) [.raaRecv false false false [10] [] [1, 2] [] true, .raaRecv false true false [] [] [3] [20] true,
+    .complete 7]).2 = [.handed 6 true, .handed 7 true] := by decide
+example : (Gate.run (Chan.init 5) [.raaRecv false false false [10] [] [1, 2] [] true, .complete 6]).2 =
+    [.handed 6 true, .adds [10], .fails [1, 2]] := by decide
+
+/-- check_get_channel_ready (translated guard chain): a channel_ready that is due while a monitor update is in progress is
+    ALWAYS recorded in monitor_pending_channel_ready (whether or not the peer is connected), and it is produced at once only
+    when no update is in progress and the peer is connected. -/
+theorem channel_ready_due_recorded_or_sent (inProgress disconnected : Bool) :
+    (inProgress = true → Gen.checkReady inProgress disconnected = (true, false)) ∧
+    ((Gen.checkReady inProgress disconnected).2 = true → inProgress = false ∧ disconnected = false) := by
+  cases inProgress <;> cases disconnected <;> decide
+
+example : Gen.checkReady false false = (false, true) := by decide
+
+/-- channel_reestablish (translated hold-back decisions): while a monitor update is in progress neither revoke_and_ack nor
+    commitment_signed is retransmitted — the matching monitor_pending flag is set instead — and in state AwaitingChannelReady no
+    channel_ready is sent. (The retransmission in state ChannelReady is NOT guarded in the code: KF-C09-1, see below.) -/
+theorem reestablish_holds_back_while_in_progress (blockedNonempty ourReady : Bool) :
+    Gen.reestRaa true blockedNonempty = (some true, false) ∧ Gen.reestCs true blockedNonempty = (some true, false) ∧
+    Gen.reestAwaitingReadyHeld ourReady true = true := by
+  cases blockedNonempty <;> cases ourReady <;> decide
+
+/-- KF-C09-1 as a statement about the translated code: the channel_ready retransmission of channel_reestablish in state
+    ChannelReady does not look at MonitorUpdateInProgress. -/
+theorem reestablish_ready_resend_ignores_monitor_state_partial (a b c : Bool) :
+    Gen.reestReadyResent a b c true = Gen.reestReadyResent a b c false := by
+  cases a <;> cases b <;> cases c <;> decide
+
+example : (Gate.step { Chan.init 0 with paused := true, cmPending := [0] } (.reestablish false false 2)).2 = [.readyResent] := by decide
+
+/-- get_update_fulfill_htlc_and_commit (translated renumbering): when a preimage update jumps a queue of blocked updates whose
+    ids are `n, n+1, …`, it takes id `n` and the queue becomes `n+1, n+2, …` — ids stay gap-free and strictly increasing for ANY
+    queue length; with an empty queue it keeps its own id. -/
+theorem claim_jump_keeps_ids_gap_free (n len own : Nat) :
+    Gen.claimJump (List.range' n len) own = (if len = 0 then own else n, List.range' (n + 1) len) := by
+  cases len with
+  | zero => simp [Gen.claimJump]
+  | succ m =>
+    simp only [Gen.claimJump, List.range'_succ, List.map_cons, Nat.succ_ne_zero, if_false]
+    refine Prod.ext (by simp) ?_
+    simp only [List.map_cons]
+    congr 1
+    have : ∀ (m s : Nat), List.map (fun x => x + 1) (List.range' s m) = List.range' (s + 1) m := by
+      intro m
+      induction m with
+      | zero => intro s; rfl
+      | succ j ih => intro s; simp only [List.range'_succ, List.map_cons, ih]
+    exact this m (n + 1)
+
+example : Gen.claimJump [8, 9, 10] 11 = (8, [9, 10, 11]) := by decide
+
+/-- revoke_and_ack (translated): whichever of its three monitor_updating_paused calls is taken, the three held vectors are
+    passed on, a commitment_signed is recorded as owed exactly when one was built, and no revoke_and_ack / channel_ready is. -/
+theorem raa_pause_args (freed rc : Bool) (fw fl ff : List Nat) :
+    Gen.raaPauseArgs freed rc fw fl ff = ((false, freed || rc, false), (fw, fl, ff)) := by
+  cases freed <;> cases rc <;> rfl
+
+/-- monitor_updating_paused (translated) never clears an owed message and never drops a held item. -/
+theorem paused_is_monotone (p : Gen.Pend) (a b c : Bool) (fw fl ff : List Nat) :
+    let q := Gen.paused p a b c fw fl ff
+    (p.raa = true → q.raa = true) ∧ (p.cs = true → q.cs = true) ∧ (p.ready = true → q.ready = true) ∧
+    q.fwds = p.fwds ++ fw ∧ q.fails = p.fails ++ fl ∧ q.fulfills = p.fulfills ++ ff ∧ q.adds = p.adds ∧ Gen.pausedSetsInProgress = true := by
+  refine ⟨?_, ?_, ?_, rfl, rfl, rfl, rfl, rfl⟩ <;> intro h <;> simp [Gen.paused, h]
+
+example : (Gen.paused { Gen.Pend.empty with raa := true, fails := [1] } false true false [] [2] []).fails = [1, 2] := by decide
+
+/-- Every NON-preimage update is queued behind held (blocked) updates, never handed to chain::Watch ahead of them: for every
+    state with a non-empty blocked queue, a received commitment_signed, a received revoke_and_ack (held or not), a send and any
+    other producer of the source census (`Gen.updateSites`: shutdown / get_shutdown / splice …, all of class "queued" — pinned by
+    tools/gen_mongate.py, TRANSLATE-ERROR when a site stops going through push_ret_blockable_mon_update) hand NOTHING over and
+    append their id at the END of the queue. Only the preimage update of a claim may jump (claim_jump_keeps_ids_gap_free). -/
+theorem non_preimage_updates_queue_behind_held (c : Chan) (h : c.blocked ≠ []) :
+    (∀ nc ar ip, (Gate.step c (.csRecv nc ar ip)).2 = [] ∧ (Gate.step c (.csRecv nc ar ip)).1.blocked = c.blocked ++ [c.latest + 1]) ∧
+    (∀ f rc hold a fw fl ff ip, (Gate.step c (.raaRecv f rc hold a fw fl ff ip)).2 = [] ∧
+        (Gate.step c (.raaRecv f rc hold a fw fl ff ip)).1.blocked = c.blocked ++ [c.latest + 1]) ∧
+    (∀ ip, (Gate.step c (.other ip)).2 = [] ∧ (Gate.step c (.other ip)).1.blocked = c.blocked ++ [c.latest + 1]) ∧
+    (∀ ip, c.paused = false → c.disconnected = false →
+        (Gate.step c (.send ip)).2 = [] ∧ (Gate.step c (.send ip)).1.blocked = c.blocked ++ [c.latest + 1]) := by
+  have hne : c.blocked.isEmpty = false := by
+    cases hb : c.blocked with
+    | nil => exact absurd hb h
+    | cons x xs => rfl
+  have hq : ∀ (c1 : Chan) (id : Nat) (ip : Bool), c1.blocked = c.blocked →
+      (queueOrHand c1 id ip).2 = [] ∧ (queueOrHand c1 id ip).1.blocked = c.blocked ++ [id] := by
+    intro c1 id ip hb
+    simp [queueOrHand, Gen.pushBlockable, hb, hne]
+  refine ⟨?_, ?_, ?_, ?_⟩
+  · intro nc ar ip
+    simp only [Gate.step]
+    apply hq
+    unfold csPre
+    split <;> rfl
+  · intro f rc hold a fw fl ff ip
+    simp [Gate.step, Gen.raaReleaseMonitor, hne, pauseWith]
+  · intro ip
+    simp only [Gate.step]
+    exact hq _ _ _ rfl
+  · intro ip hp hd
+    simp only [Gate.step, hp, hd, Bool.or_self, Bool.false_eq_true, if_false]
+    exact hq _ _ _ rfl
+
+example : (Gate.step { Chan.init 7 with blocked := [8], latest := 8, paused := true } (.other false)).1.blocked = [8, 9] := by decide
+example : ∀ s ∈ Gen.updateSites, s.2 = "queued" ∨ s.2 = "preimage-jump" ∨ s.2 = "raa-release-monitor" ∨ s.2 = "inner" ∨ s.2 = "direct-close" := by decide
+
+end GateModel
+
 end Ldk.C09
